@@ -46,6 +46,10 @@ UseF(P, id, kind, a) ==
            [P EXCEPT !.bufs[id] = [len |-> b.len + Len(a),
                                    cells |-> [i \in 1..cap |-> IF i > b.len /\ i <= b.len + Len(a)
                                                                THEN a[i - b.len] ELSE b.cells[i]]]]
+      [] kind = "AppendGrow" -> \* a = the source's samples; beyond the capacity: the buffer moves to new storage
+           \* (its capacity is whatever the runtime chose: PoolTrace overrides the length of `cells' from the
+           \* observation); such a buffer can no longer be put back (wrong capacity) and is usually forgotten
+           [P EXCEPT !.bufs[id] = [len |-> b.len + Len(a), cells |-> SubSeq(b.cells, 1, b.len) \o a]]
       [] kind = "Slice0" ->     \* the holder continues with b.Slice(0, a[1])
            [P EXCEPT !.bufs[id].len = P.alloc.ch * a[1]]
 
@@ -55,6 +59,9 @@ PutAsPinned(P, g, id) ==
     LET b == P.bufs[id] IN
     [P EXCEPT !.bufs[id].cells = [i \in 1..Len(b.cells) |-> IF i <= b.len THEN 0 ELSE b.cells[i]],
               !.free = Append(@, id), !.held[g] = @ \ {id}]
+(* the holder walks away from a buffer without putting it back: it is neither held nor pooled any more, so *)
+(* no later Get may return it                                                                             *)
+ForgetF(P, g, id) == [P EXCEPT !.held[g] = @ \ {id}]
 (* a garbage collection may drop any pooled buffers *)
 GCF(P, keep) == [P EXCEPT !.free = keep]
 
